@@ -26,3 +26,32 @@ package types
 //@        forall(e, has(epochs, e) ==> exists(j, 0, rangeindex + 1, gs.UndelegationMaturities[j].Epoch == e))
 //@ loop #7
 //@   invariant true
+
+// ---------------------------------------------------------------------------------------------
+// C16 / C07 / C06 (each queue, index and marker of the module lives under its own prefix): every key builder puts its
+// OWN prefix byte in front of its argument - two collections never share a key.
+//@ func OptOutsToFinishKey
+//@   ensures[C16.k.optouts] epoch >= 0 ==> r1 && r0 == cat(bytelit(g("x/dogfood/types.OptOutsToFinishBytePrefix")), u64be(epoch))
+//@   ensures[C16.k.optouts.neg] epoch < 0 ==> !r1
+//@ func ConsensusAddrsToPruneKey
+//@   ensures[C16.k.prune,C07.k.prune] epoch >= 0 ==> r1 && r0 == cat(bytelit(g("x/dogfood/types.ConsensusAddrsToPruneBytePrefix")), u64be(epoch))
+//@ func UnbondingReleaseMaturityKey
+//@   ensures[C16.k.maturity] epoch >= 0 ==> r1 && r0 == cat(bytelit(g("x/dogfood/types.UnbondingReleaseMaturityBytePrefix")), u64be(epoch))
+//@ func OperatorOptOutFinishEpochKey
+//@   ensures[C16.k.finish] r0 == cat(bytelit(g("x/dogfood/types.OperatorOptOutFinishEpochBytePrefix")), address)
+//@ func UndelegationMaturityEpochKey
+//@   ensures[C16.k.matepoch] r0 == cat(bytelit(g("x/dogfood/types.UndelegationMaturityEpochByte")), recordKey)
+//@ func ExocoreValidatorKey
+//@   ensures[C06.k.validator] r0 == cat(bytelit(g("x/dogfood/types.ExocoreValidatorBytePrefix")), address)
+//@ func PendingOptOutsKey
+//@   ensures[C16.k.pendopt] r0 == bytelit(g("x/dogfood/types.PendingOptOutsByte"))
+//@ func PendingConsensusAddrsKey
+//@   ensures[C16.k.pendcons] r0 == bytelit(g("x/dogfood/types.PendingConsensusAddrsByte"))
+//@ func PendingUndelegationsKey
+//@   ensures[C16.k.pendund] r0 == bytelit(g("x/dogfood/types.PendingUndelegationsByte"))
+//@ func EpochEndKey
+//@   ensures[C06.k.epochend] r0 == bytelit(g("x/dogfood/types.EpochEndByte"))
+//@ func LastTotalPowerKey
+//@   ensures[C06.k.power] r0 == bytelit(g("x/dogfood/types.LastTotalPowerByte"))
+//@ func ValidatorUpdatesKey
+//@   ensures[C06.k.updates] r0 == bytelit(g("x/dogfood/types.ValidatorUpdatesByte"))
